@@ -10,7 +10,7 @@ import (
 func VerifHarness_C31_ReaderNoPanic() {
 	max := 20
 	if sym.Thorough() {
-		max = 26
+		max = 23
 	}
 	data := sym.Bytes("repr", max)
 	sym.NoPanic("reader", func() {
